@@ -504,8 +504,8 @@ pub fn run_check(tier: Tier, replay: Option<&J>) -> i32 {
         match (tier, heavy) {
             (Tier::Quick, false) => 3,
             (Tier::Quick, true) => 1,
-            (Tier::Thorough, false) => 4,
-            (Tier::Thorough, true) => 2,
+            (Tier::Thorough, false) => 5,
+            (Tier::Thorough, true) => 3,
         }
     };
     let st = cfgs.par_iter().enumerate().map(|(i, c)| explore(c, depth_for(c), i)).reduce(Stats::default, Stats::merge);
